@@ -70,4 +70,28 @@ IllegalFamily(s) ==
       [] s \in {"DATA", "c_DATA"} -> "E991"
       [] s = "NODATA" -> "E990"
       [] s = "DONE" -> "E992"
+
+(* ------------------------------------------------------------------------ *)
+(* Implementation level: the eleven variants of the generated state machine  *)
+(* (its_payload_fsm_cont.rs, sm! table), numbered as verif_state_id() does,  *)
+(* and its transition function as coded. Abs is the refinement mapping to    *)
+(* the diagram states; MC_ItsFsm checks Abs(ImplStep(i,w)) = Step(Abs(i),w). *)
+(*  0 InitialIHW_  1 IHW_By_WasDdw0  2 TDH_By_WasIhw  3 DATA_By_NoDataFalse  *)
+(*  4 DATA_By_WasData  5 DDW0_or_TDH_or_IHW_By_NoDataTrue                    *)
+(*  6 DDW0_or_TDH_or_IHW_By_WasTDTpacketDoneTrue  7 c_IHW_By_WasTDT..False   *)
+(*  8 c_TDH_By_Next  9 c_DATA_By_Next  10 c_DATA_By_WasData                  *)
+ImplStates == 0..10
+ImplInit == 0
+Abs(i) == CASE i \in {0, 1} -> "IHW" [] i = 2 -> "TDH" [] i \in {3, 4} -> "DATA" [] i = 5 -> "NODATA"
+            [] i = 6 -> "DONE" [] i = 7 -> "c_IHW" [] i = 8 -> "c_TDH" [] i \in {9, 10} -> "c_DATA"
+ImplTdh(w) == IF TdhNoData(w) = 1 THEN 5 ELSE 3
+ImplStep(i, w) ==
+    CASE i \in {0, 1} -> 2
+      [] i = 2 -> ImplTdh(w)
+      [] i \in {3, 4} -> IF Id(w) = ID_TDT THEN (IF TdtPacketDone(w) = 1 THEN 6 ELSE 7) ELSE 4
+      [] i = 5 -> IF Id(w) = ID_TDH THEN ImplTdh(w) ELSE IF Id(w) = ID_IHW THEN 2 ELSE IF Id(w) = ID_DDW0 THEN 1 ELSE 3
+      [] i = 6 -> IF Id(w) = ID_TDH THEN ImplTdh(w) ELSE IF Id(w) = ID_IHW THEN 2 ELSE 1
+      [] i = 7 -> 8
+      [] i = 8 -> 9
+      [] i \in {9, 10} -> IF Id(w) = ID_TDT THEN (IF TdtPacketDone(w) = 1 THEN 6 ELSE 7) ELSE 10
 =============================================================================
